@@ -109,6 +109,11 @@ def _register_object(new_type, version=version.DEFAULT_VERSION):
     OBJ_MAP = registry.STIX2_OBJ_MAPS[version]['objects']
     if new_type._type in OBJ_MAP.keys():
         raise DuplicateRegistrationError("STIX Object", new_type._type)
+    if version != "2.0" and \
+            new_type._type in registry.STIX2_OBJ_MAPS[version]['observables']:
+        # 2.1 objects and observables share the namespace of top-level types:
+        # the new class would shadow the observable when parsing
+        raise DuplicateRegistrationError("Cyber Observable", new_type._type)
     OBJ_MAP[new_type._type] = new_type
 
 
@@ -154,6 +159,10 @@ def _register_observable(new_observable, version=version.DEFAULT_VERSION):
     OBJ_MAP_OBSERVABLE = registry.STIX2_OBJ_MAPS[version]['observables']
     if new_observable._type in OBJ_MAP_OBSERVABLE.keys():
         raise DuplicateRegistrationError("Cyber Observable", new_observable._type)
+    if version != "2.0" and \
+            new_observable._type in registry.STIX2_OBJ_MAPS[version]['objects']:
+        # (see _register_object) the object type would shadow this one
+        raise DuplicateRegistrationError("STIX Object", new_observable._type)
     OBJ_MAP_OBSERVABLE[new_observable._type] = new_observable
 
 
